@@ -178,7 +178,7 @@ def _compile_route(route):
         rpat.append('(?P<%s>.*?)' % remainder)  # unicode
         gen.append('%%(%s)s' % remainder)  # native
 
-    pattern = ''.join(rpat) + '$'  # unicode
+    pattern = ''.join(rpat) + r'\Z'  # unicode
 
     match = re.compile(pattern).match
 
